@@ -243,6 +243,9 @@ func evalCase(r *core.Run, level string, n *node, err error, cfg optsCfg, h http
 	}
 	st.add("class_"+exp.Class, 1)
 	st.add(fmt.Sprintf("status_%d", ho.Status), 1)
+	if cfg.Verbose && ho.Panic == "" && go_.Panic == "" && go_.RPCErr == "" {
+		noteBodyDifference(n, ho, go_, accept, st)
+	}
 	if len(vs) > 0 {
 		c := unitCase{Level: level, Tree: n, TreeText: n.String(), ErrorText: err.Error(), Options: cfg, Accept: accept, Expected: exp, HTTP: ho, GRPC: go_}
 		seen := map[string]bool{}
@@ -255,6 +258,54 @@ func evalCase(r *core.Run, level string, n *node, err error, cfg optsCfg, h http
 	}
 	return exp
 }
+
+// noteBodyDifference records (as counters and examples, not as verdicts) where the two translators treat the body of the
+// same verbose failure differently: the statement asks for "the negotiated content type" per response and does not say
+// that both translators have to pick the same one among several acceptable types, nor what to do with an Accept value
+// that cannot be parsed. The case "well-formed Accept, nothing acceptable" is the open finding grpc-unnegotiated-html-body.
+func noteBodyDifference(n *node, ho, gout obs, accept []string, st *stats) {
+	hb, gb := ho.Body != "", gout.Body != ""
+	if !hb && !gb {
+		return
+	}
+	judged, _, anySupported := acceptVerdict(accept, "text/html")
+	cat := ""
+	switch {
+	case hb != gb && judged && !anySupported:
+		cat = "presence_differs_nothing_acceptable"
+	case hb != gb && !judged:
+		cat = "presence_differs_accept_not_well_formed_or_empty"
+	case hb != gb:
+		cat = "presence_differs_although_a_type_is_acceptable"
+	default:
+		hbase, _, _ := bodyParses(ho.ContentType, ho.Body)
+		gbase, _, _ := bodyParses(gout.ContentType, gout.Body)
+		if hbase == gbase {
+			return
+		}
+		cat = "type_differs_both_present"
+	}
+	st.add("http_grpc_body_"+cat, 1)
+	bodyDiffMu.Lock()
+	defer bodyDiffMu.Unlock()
+	ex := bodyDiffExamples[cat]
+	if ex == nil {
+		ex = map[string]string{}
+		bodyDiffExamples[cat] = ex
+	}
+	k := fmt.Sprintf("Accept %q", accept)
+	if cat == "presence_differs_although_a_type_is_acceptable" {
+		k += " error " + n.String()
+	}
+	if _, seen := ex[k]; !seen && len(ex) < 8 {
+		ex[k] = fmt.Sprintf("http: %q (%d bytes), grpc: %q (%d bytes)", ho.ContentType, len(ho.Body), gout.ContentType, len(gout.Body))
+	}
+}
+
+var (
+	bodyDiffMu       sync.Mutex
+	bodyDiffExamples = map[string]map[string]string{}
+)
 
 // --- Accept pool -----------------------------------------------------------------------------
 
@@ -426,6 +477,9 @@ func c12Unit(r *core.Run) {
 		r.Count("unit_"+k, v)
 	}
 	st.mu.Unlock()
+	bodyDiffMu.Lock()
+	r.Set("unit_http_grpc_body_differences_examples", bodyDiffExamples)
+	bodyDiffMu.Unlock()
 
 	// samples: a few executed cases verbatim
 	for _, idx := range []int{0, len(atomOps) + 130, len(items) - 1} {
